@@ -147,6 +147,100 @@ theorem F18b_exponent_display :
     = some ("1e16".toList, some .scientific, some .general) := by
   decide +kernel
 
+/-! ### all prior cell states
+
+  `set_user_input` starts from the style the cell already has.  The statements below quantify over
+  every prior style (`quote_prefix` flag and number format) — added after a seeded defect (a boolean
+  typed over a quote-prefixed cell kept the quote prefix) showed that the fresh-cell statements say
+  nothing about that state. -/
+
+/-- after any input the quote-prefix flag is decided by the input alone (set exactly by a `'`
+    prefix), whatever the cell's style was before: the invariant the seeded defect broke -/
+theorem styleAfter_quote (st : Style) (i : Input) :
+    (styleAfter st i).quote = (match i with | .quoted _ => true | _ => false) := by
+  cases i <;> simp only [styleAfter]
+  case number v k =>
+    generalize k.format = o
+    cases o with
+    | none => rfl
+    | some f => simp only [numStyle]; split <;> rfl
+
+/-- a boolean (or error, text, number, formula, empty input) typed over a quote-prefixed cell
+    clears the quote prefix -/
+theorem unquoted_input_clears_quote (ℓ : Locale) (lang : Lang) (shownOf : Value → Shown) (st : Style)
+    (x : List Char) (h : ∀ t, classify ℓ lang x ≠ .quoted t) :
+    (applyInput ℓ lang shownOf st x).2.quote = false := by
+  unfold applyInput
+  rw [styleAfter_quote]
+  cases hi : classify ℓ lang x <;> simp
+  exact absurd hi (h _)
+
+/-- applying the same classified input twice leaves the style it left the first time -/
+theorem styleAfter_idem (st : Style) (i : Input) : styleAfter (styleAfter st i) i = styleAfter st i := by
+  cases i <;> simp only [styleAfter]
+  case number v k =>
+    generalize k.format = o
+    cases o with
+    | none => rfl
+    | some f =>
+      simp only [numStyle]
+      by_cases h1 : (isLikelyDate st.fmt && isLikelyDate (some f)) = true
+      · simp only [h1, if_true]
+      · simp only [h1]
+        by_cases h2 : isLikelyDate (some f) = true
+        · simp [h2]
+        · simp [h2]
+
+/-- **re-entry from ANY prior state**: if the content the editor shows for the cell that input `x`
+    left (on a cell with any prior style `st`) is classified like `x` itself, typing it back leaves
+    exactly the same cell: same content, same quote prefix, same number format -/
+theorem reenter_prior (ℓ : Locale) (lang : Lang) (shownOf : Value → Shown) (st : Style) (x d : List Char)
+    (hcls : classify ℓ lang d = classify ℓ lang x) :
+    applyInput ℓ lang shownOf (applyInput ℓ lang shownOf st x).2 d = applyInput ℓ lang shownOf st x := by
+  unfold applyInput
+  simp only [hcls, styleAfter_idem]
+
+/-- **strings stay strings from any prior state** (all texts, locales, languages, prior styles —
+    quote-prefixed, date-, percent-, currency-formatted, …): an input that is empty, `'text` or plain
+    text leaves a cell whose displayed content exists and, typed back, reproduces that cell -/
+theorem reenter_prior_string (ℓ : Locale) (lang : Lang) (shownOf : Value → Shown) (st : Style) (x : List Char)
+    (hx : classify ℓ lang x = .empty ∨ (∃ t, classify ℓ lang x = .quoted t) ∨ (∃ s, classify ℓ lang x = .text s)) :
+    ∃ d, displayS ℓ lang (applyInput ℓ lang shownOf st x).1 (applyInput ℓ lang shownOf st x).2 = some d ∧
+      applyInput ℓ lang shownOf (applyInput ℓ lang shownOf st x).2 d = applyInput ℓ lang shownOf st x := by
+  rcases hx with h | ⟨t, h⟩ | ⟨s, h⟩
+  · refine ⟨[], ?_, reenter_prior ℓ lang shownOf st x [] (by rw [h]; rfl)⟩
+    simp [applyInput, h, contentAfter, styleAfter, displayS, contentText]
+  · refine ⟨'\'' :: t, ?_, reenter_prior ℓ lang shownOf st x _ (by rw [h]; rfl)⟩
+    simp [applyInput, h, contentAfter, styleAfter, displayS, contentText]
+  · have hs := classify_text_eq ℓ lang x s h
+    subst hs
+    refine ⟨s, ?_, reenter_prior ℓ lang shownOf st s s rfl⟩
+    simp [applyInput, h, contentAfter, styleAfter, displayS, contentText]
+
+/-- **booleans and errors from any prior state**: when the name a boolean / error is shown with is
+    classified as that boolean / error (decided for every locale × language pair by
+    `errors_reenter_all` and `bools_reenter_english`), typing the displayed content back reproduces the
+    cell whatever style the cell had before the boolean / error was typed -/
+theorem reenter_prior_bool_error (ℓ : Locale) (lang : Lang) (shownOf : Value → Shown) (st : Style) (x : List Char)
+    (c : Content) (hc : (∃ b, c = .bool b ∧ classify ℓ lang x = .boolean b) ∨ (∃ i, c = .err i ∧ classify ℓ lang x = .error i))
+    (hname : classify ℓ lang (contentText ℓ lang c) = classify ℓ lang x) :
+    displayS ℓ lang (applyInput ℓ lang shownOf st x).1 (applyInput ℓ lang shownOf st x).2 = some (contentText ℓ lang c) ∧
+      applyInput ℓ lang shownOf (applyInput ℓ lang shownOf st x).2 (contentText ℓ lang c) = applyInput ℓ lang shownOf st x := by
+  refine ⟨?_, reenter_prior ℓ lang shownOf st x _ hname⟩
+  rcases hc with ⟨b, rfl, h⟩ | ⟨i, rfl, h⟩ <;>
+    simp [applyInput, h, contentAfter, styleAfter, displayS]
+
+/-- the seeded sequence in the model: `'hello`, then `true`, then the displayed `TRUE` (en/en) -/
+example :
+    (do let l ← IronCalc.Generated.C19.locales.lookup "en"
+        let g ← IronCalc.Generated.C18.languages.lookup "en"
+        let sh : Value → Shown := fun _ => ⟨false, ['0'], 0⟩
+        let s1 := (applyInput l g sh ⟨false, none⟩ "'hello".toList).2
+        let r := applyInput l g sh s1 "true".toList
+        let d ← displayS l g r.1 r.2
+        pure (s1.quote, r, d, applyInput l g sh r.2 d == r)) =
+      some (true, (.bool true, ⟨false, none⟩), "TRUE".toList, true) := by decide +kernel
+
 /-! ### non-vacuity -/
 
 /-- look-alikes typed with a quote stay strings and re-enter as themselves (German, fr locale) -/
